@@ -430,6 +430,8 @@ func drive(jobs []soupJob, level string) {
 		queue = append(queue, jobs[i:e])
 	}
 	var inconclusive []string
+	hangs := 0
+	const maxHangs = 3
 	w := runtime.NumCPU() / 2
 	if w > 6 {
 		w = 6
@@ -457,6 +459,19 @@ func drive(jobs []soupJob, level string) {
 				b := next()
 				if b == nil {
 					return
+				}
+				mu.Lock()
+				stop := hangs >= maxHangs
+				mu.Unlock()
+				if stop {
+					// the violation is established; every further hang would cost batchCap + aloneCap
+					for i := range b {
+						j := &b[i]
+						mu.Lock()
+						results[j.in.ID] = &hlib.Result{Idx: j.caseIdx, V: "skip", Sig: "not-run-after-hangs", Detail: "not run: the run already has confirmed hangs"}
+						mu.Unlock()
+					}
+					continue
 				}
 				we := runWorker(b, batchCap)
 				if we.startErr != nil {
@@ -488,6 +503,9 @@ func drive(jobs []soupJob, level string) {
 					case len(alone.outs) == 1:
 						record(j, &alone.outs[0], "", "") // it was the batch (load), not the input
 					case alone.stalled:
+						mu.Lock()
+						hangs++
+						mu.Unlock()
 						record(j, nil, "parse-hang:"+j.kinds, fmt.Sprintf("no return within %v (alone, fresh process); src %q", aloneCap, clip(j.in.Src, 300)))
 					case alone.died:
 						site := panicSite(alone.stderr)
